@@ -111,6 +111,9 @@ def main(argv=None):
             if facts.inlined:
                 st["new_helpers_expanded_into_callers"] = {h: sorted(set(c)) for h, c in facts.inlined.items()}
                 print("note: new private helper(s) analysed inside their callers: %s" % ", ".join(sorted(facts.inlined)))
+            if facts.renamed_fields:
+                st["fields_analysed_under_reviewed_name"] = facts.renamed_fields
+                print("note: renamed field(s) analysed under their reviewed names: %s" % ", ".join("%s.%s (now %s)" % (a.split("::")[-1], o, n) for a, m in sorted(facts.renamed_fields.items()) for o, n in m.items()))
             if facts.renamed:
                 st["functions_analysed_under_reviewed_name"] = facts.renamed
                 print("note: renamed function(s) analysed under their reviewed names: %s" % ", ".join("%s (now %s)" % (a, b.split("::")[-1]) for a, b in sorted(facts.renamed.items())))
